@@ -18,6 +18,11 @@ expression is evaluated; early-evaluated constructor calls are followed to the d
                          self-chosen value shared by two different builds ⇔ every re-specification path resets;
   `respec_paths_reset`   (`decide`) the obligation over Generated/SecretState.lean (setters, load_from_config, parse paths
                          of every class that stores a self-chosen secret); `current_tree_reuse_safe` combines them.
+* `file_fresh_iff`       (phase 2) rebuilds into ONE directory (the secret file written by build k is there for build k+1, also
+                         after an interpreter restart): non-reuse builds carry pairwise different self-chosen values ⇔
+                         the explicit reuse flag — not a file-system probe — selects the source;
+  `secret_sources_explicit` (`decide`) over Generated.secretSources (every draw that is one of several alternative sources
+                         of a variable, with the kind of its guard); `current_tree_file_fresh`.
 * `kept_value_shares`    the boundary of the model: a value kept from another artifact (re-used builder object, cache)
                          always violates the property; detected at run time (trace flag), not by the site table.
 * `ctr_pair_unique`      corollary: no two artifacts of any history feed the same (key, nonce) to AES-CTR
@@ -29,6 +34,7 @@ import SpsdkVerif.Proofs.Fresh
 import SpsdkVerif.Generated.SecretSites
 import SpsdkVerif.Proofs.FreshObj
 import SpsdkVerif.Generated.SecretState
+import SpsdkVerif.Proofs.FreshFile
 
 namespace SpsdkVerif.C17
 open SpsdkVerif.Fresh
@@ -164,7 +170,51 @@ theorem current_tree_reuse_safe (h : List Step) : Safe (runObj (respecPaths.map 
   have h2 : x.role = .respec ∧ x.direct = true := by simpa using hx'.2
   exact respec_paths_reset x hx'.1 h2.1 h2.2
 
+/-! ### Same-directory rebuilds (phase 2): Model/FreshFile.lean, Generated.secretSources -/
+
+/-- **Freshness across rebuilds into one directory ⇔ the explicit flag decides.**  For every initial content of the
+    directory and every history of builds (with / without the reuse flag), user-placed key files and clean-ups — the file
+    system state is what survives an interpreter restart, so this covers restarts too —: every build that did not ask for
+    reuse carries a value SPSDK chose, all of them pairwise different, if and only if the choice between "draw" and "read
+    the file" is made by the user's flag and not by what is found in the file system. -/
+theorem file_fresh_iff (g : Guard) : (∀ init h, SafeF (runF g init h)) ↔ g = .flag := by
+  constructor
+  · intro hall
+    cases g with
+    | flag => rfl
+    | fileExists =>
+      exfalso
+      have h := (hall none [.build false, .build false]).2
+      revert h
+      decide
+  · rintro rfl init h
+    have hI : FInv (h.foldl (fstep .flag) { file := init.map .user }) :=
+      finv_foldl h _ ⟨by simp, by simp⟩
+    exact ⟨fun a ha hr => (hI.1 a ha hr).imp (fun t ht => ht.1), hI.2⟩
+
+/-- with the reuse flag the build uses exactly what is in the file (whoever put it there) -/
+theorem reuse_reads_file (g : Guard) (s : FSt) (v : OVal) (hf : s.file = some v) :
+    (fstep g s (.build true)).arts = ⟨true, v⟩ :: s.arts := by
+  cases g <;> simp [fstep, hf]
+
+/-- **The obligation on the current tree**: no draw that is one of several alternative sources of a secret is selected by
+    a guard that probes the file system (fails for `find_file(.., raise_exc=False)` + `if path:` in `get_dek_from_config`,
+    the seeded change C17c). -/
+theorem secret_sources_explicit : ∀ r ∈ Generated.secretSources, r.guard = .flag := by decide
+
+/-- On the current tree rebuilding into the same directory never re-uses a self-chosen secret unasked, for every site. -/
+theorem current_tree_file_fresh (r : SourceChoice) (hr : r ∈ Generated.secretSources) (init : Option Nat) (h : List FStep) :
+    SafeF (runF r.guard init h) :=
+  (file_fresh_iff r.guard).mpr (secret_sources_explicit r hr) init h
+
 /-! ### Sanity checks / non-vacuity -/
+
+-- the table of alternative sources contains the one site whose alternative is a file (HAB DEK) …
+example : ∃ r ∈ Generated.secretSources, r.kind = .hab ∧ r.altFile = true := by decide
+-- … C17c in the model: the second build into the directory silently gets the first build's DEK
+example : runF .fileExists none [.build false, .build false] = [⟨false, .chosen 0⟩, ⟨false, .chosen 0⟩] := by decide
+example : runF .flag none [.build false, .build false, .build true, .place 5, .build true, .build false] =
+    [⟨false, .chosen 2⟩, ⟨true, .user 5⟩, ⟨true, .chosen 1⟩, ⟨false, .chosen 1⟩, ⟨false, .chosen 0⟩] := by decide
 
 -- the object-state table covers the MBI counter IV (getter + at least three public re-specification paths) …
 example : 3 ≤ (respecPaths.filter (fun r => r.kind = .mbi)).length := by decide
